@@ -214,6 +214,12 @@ def run(unit):
                     argv = (['-p'] + (['-o', 'json'] if want_json else []) + [text]) if order == 0 else ((['--output', 'json'] if want_json else []) + ['--property', text])
                     for kind, detail in check_case(argv, 'prop', text, want_json, r, '-p'):
                         r.violation(kind, {'argv': argv}, detail, size=len(text))
+        # without -p the argument names a file: a text that would be a valid property is a file that does not exist
+        for text in VALID_PROPS[:4] + ['globally: no /a', 'a', 'p.hpl']:
+            for want_json in (True, False):
+                for argv in ((['-o', 'json'] if want_json else []) + [text], [text] + (['--output', 'json'] if want_json else [])):
+                    for kind, detail in check_case(argv, 'spec', None, want_json, r, 'missing-file-named-like-a-property'):
+                        r.violation(kind + ' [argument without -p that is not a file]', {'argv': argv}, detail, size=len(text))
         r.sample({'argv': ['-p', '-o', 'json', VALID_PROPS[5]]})
     elif what == 'files':
         d = tempfile.mkdtemp(prefix='hplmc_c19_')
@@ -400,7 +406,7 @@ def replay(w):
 def describe(tier):
     b = bounds(tier)
     return {
-        'rule': f"-p: every property skeleton (widths <= {b['max_width']}) x 3 decorations, 11 fixed valid texts covering every node kind incl. INF/NAN/PI/E and metadata, 8 invalid texts (syntax, sanity, type, unknown function, duplicate metadata, empty) x with/without -o json x short/long options; files: all 1- and 2-property files and a fifth of the 3-property files over the 11 valid texts, every invalid text at positions 0..2, empty / blank / dangling-annotation files, a missing file and a directory x with/without -o json; real processes: one text per outcome class x 4 configurations; 4 texts outside ASCII (well-formed Unicode, a raw non-UTF-8 byte in the argument vector) x 4 I/O configurations of the process (default, ascii stdout, C locale, UTF-8 mode) x with/without -o json, and a UTF-8 and a Latin-1 file; and one process that makes 2-3 calls mixing -p and file mode in both orders (expectations hard-coded, not taken from the library). A transition = one hpl.cli.main call (or process).",
+        'rule': f"-p: every property skeleton (widths <= {b['max_width']}) x 3 decorations, 11 fixed valid texts covering every node kind incl. INF/NAN/PI/E and metadata, 8 invalid texts (syntax, sanity, type, unknown function, duplicate metadata, empty) x with/without -o json x short/long options; the first valid texts again WITHOUT -p (a file of that name does not exist: exit 1, no JSON); files: all 1- and 2-property files and a fifth of the 3-property files over the 11 valid texts, every invalid text at positions 0..2, empty / blank / dangling-annotation files, a missing file and a directory x with/without -o json; real processes: one text per outcome class x 4 configurations; 4 texts outside ASCII (well-formed Unicode, a raw non-UTF-8 byte in the argument vector) x 4 I/O configurations of the process (default, ascii stdout, C locale, UTF-8 mode) x with/without -o json, and a UTF-8 and a Latin-1 file; and one process that makes 2-3 calls mixing -p and file mode in both orders (expectations hard-coded, not taken from the library). A transition = one hpl.cli.main call (or process).",
         'bounds': b,
         'exhaustive': True,
         'assumptions': ['the library parser called directly decides "parses"; strict JSON = json.loads rejecting NaN/Infinity constants'],
